@@ -110,7 +110,7 @@ fn flag_refusal_body(openat2: bool, creation: bool) {
 macro_rules! fr_h {
     ($name:ident, $o2:expr, $cr:expr) => {
         #[kani::proof]
-        #[kani::unwind(7)]
+        #[kani::unwind(18)]
         #[kani::stub(crate::syscalls::openat2, k_openat2)]
         #[kani::stub(crate::resolvers::procfs::opath_resolve, k_opath_resolve)]
         #[kani::stub(alloc::fmt::format, k_format)]
@@ -283,7 +283,7 @@ pub(crate) fn k_metadata_walk<Fd: AsFd>(this: &Fd) -> Result<crate::utils::Metad
 macro_rules! walk_h {
     ($name:ident, $sym:expr) => {
         #[kani::proof]
-        #[kani::unwind(8)]
+        #[kani::unwind(18)]
         #[kani::stub(crate::syscalls::openat_follow, k_openat_follow)]
         #[kani::stub(crate::syscalls::statx, k_statx)]
         #[kani::stub(crate::syscalls::readlinkat, k_readlinkat_body)]
